@@ -20,7 +20,16 @@ def run(res, replay=None):
     rng = C.Rng(seed * 6007 + 9)
     wd = os.path.join(C.CACHE, "run", "C11")
     os.makedirs(wd, exist_ok=True)
-    cases = c10.gen_insphere(rng, "quick")[: (6000 if tier == "quick" else 40000)]
+    allc = c10.gen_insphere(rng, "quick")
+    # a balanced share of every family (co-spherical exact / +-1 / rotated, coplanar, repeated, extremes, random)
+    cap = 6000 if tier == "quick" else 40000
+    byfam = {}
+    for cs in allc:
+        byfam.setdefault(cs[0], []).append(cs)
+    quota = cap // len(byfam)
+    cases = [cs for fam in sorted(byfam) for cs in byfam[fam][:quota]]
+    rest = [cs for fam in sorted(byfam) for cs in byfam[fam][quota:]]
+    cases += rest[: cap - len(cases)]
     lines = ["insphere " + " ".join(str(x) for p in pts for x in p) for _, pts in cases]
     for ai in range(8):
         lines.append(f"insphere_sweep 2 0 {ai}")
